@@ -21,7 +21,7 @@ def _ref_tree(rng, depth):
 
 def _reparse_cases(tier, rng):
     cases = []
-    n = 1500 if tier == 'quick' else 40000
+    n = 1500 if tier == 'quick' else 150000
     for i in range(n):
         t = SP.random_tree(rng, 1 + i % 4)
         cases.append(SP.spell(t, rng, redundant=0.2 if i % 2 else 0.0, spaces=0.3 if i % 3 == 0 else 0.0))
@@ -82,7 +82,7 @@ CONSTS = [1, 2.5, -3, 0, True, False, 'text', 'with "quotes"', "it's", '=not a f
 
 def _model_cases(tier, rng):
     cases = []
-    n = 60 if tier == 'quick' else 1500
+    n = 60 if tier == 'quick' else 6000
     for i in range(n):
         d = {}
         sheets = rng.sample(SHEET_IDS, rng.randrange(1, 3))
@@ -218,12 +218,12 @@ BOUNDED = [
           'intersection references, sheet names that need quoting, text cells that look like formulas and contain quotes), loaded from file, exported and re-imported', parallel=False),
     Stage('B1:exported-text-parses-back-to-the-same-formula', 'C09', _reparse_cases, _check_reparse,
           'random trees of the C01 generator (depth 1..4, 2 spelling styles) and reference expressions (range / intersection / union, '
-          'nested to depth 2) as function arguments: get_expr(ast("=" + get_expr(ast(f)))) == get_expr(ast(f)); 2500 quick / 66000 thorough',
+          'nested to depth 2) as function arguments: get_expr(ast("=" + get_expr(ast(f)))) == get_expr(ast(f)); 2500 quick / about 240000 thorough',
           classify=_classify_reparse, max_report=50),
     Stage('B2:json-export-import-round-trip-of-small-models', 'C09', _model_cases, _check_model,
           'random models of 4..16 cells on 1..2 sheets (names that need quoting), constants of every kind (text that looks like a formula, quotes, '
           'blank text, error text), 11 formula templates incl. unresolved sheets / functions / names: values equal after to_dict -> from_dict, and the '
-          'second export equals the first; 60 quick / 1500 thorough', max_report=20),
+          'second export equals the first; 60 quick / 6000 thorough', max_report=20),
 ]
 
 PROPERTIES = {
